@@ -530,6 +530,13 @@ def deviations(rows, year, reduced=False, cols=None, max_alts=None, individual=F
                 if col == "alter":
                     if not _age_ok(rows, i, v) or (adult != (v >= 18)):
                         continue
+                    if r["rentner"]:
+                        # a pension recipient keeps the recorded retirement year and insurance record: the new age must leave them feasible
+                        # (entry into the pension as an adult, contribution months not longer than the working life before it)
+                        entry_age = r["jahr_renteneintr"] - (year - v)
+                        months = r.get("m_pflichtbeitrag", 0.0) + r.get("m_freiw_beitrag", 0.0)
+                        if entry_age < 20 or months > (entry_age - 15) * 12:
+                            continue
                     new[i]["alter"] = v
                     new[i]["geburtsjahr"] = year - v
                     if not adult:
